@@ -1,7 +1,7 @@
 """C01 - incremental SAGE efficiency: sum(importance_values) == explained_loss after every call."""
 import random
 
-from ..harness import Scenario, gen_cfg
+from ..harness import Scenario, gen_cfg, make_long, make_phase
 from ..riverlike import RealScenario, gen_real_cfg
 from ..probes import InjectedFault
 from ..core import jsonable
@@ -79,7 +79,7 @@ def tree_configs(run, rnd, n_cfg):
 def main(run):
     run.level = "exploration"
     run.rule = ("seeded configurations from the cfg product incl. TreeStorage/TreeImputer with position-reading models (mode x alpha x n_inner x d x storage x imputer x "
-                "name type x model x loss x loss_bigger_is_better, per-call n_inner override / update_storage=False; every 5th configuration with callbacks that fail at random positions, caught by the caller, stream continued); "
+                "name type x model x loss x loss_bigger_is_better, per-call n_inner override / update_storage=False; every 15th configuration a REAL river model that keeps learning (river streams, metrics, wrappers); every 5th configuration with callbacks that fail at random positions, caught by the caller, stream continued); "
                 "the identity is evaluated after EVERY explain_one (all prefixes), == on exact rationals (Q-mode) "
                 "and |diff|<=1e-9*(d+2)*max|loss| in float mode; a (config,step) is non-trivial when "
                 "explained_loss != 0 and >= 2 distinct non-zero importance values; distinct by (cfg, step, values)")
@@ -89,7 +89,7 @@ def main(run):
                 "ixai/utils/tracker/multi_value.py:MultiValueTracker.update")
     rnd = random.Random(run.shard_seed)
     tree_configs(run, random.Random(run.shard_seed + 17), 16 if run.tier == "quick" else 40)
-    run.require_count("real-model-configs")
+    run.require_count("real-model-configs", "long-stream-configs", "late-informative-model-configs")
     for i in range(N_CFG[run.tier]):
         exact = (i % 3 != 2)
         if i % 15 == 14:     # a real river model that keeps learning, river streams and metrics, the library's own wrappers
@@ -97,6 +97,12 @@ def main(run):
             run.count("real-model-configs")
         else:
             cfg = gen_cfg(rnd, "sage", exact, allow_discontinuous=True)
+            if i in (40, 41) or (run.tier == "thorough" and i % 500 == 42):      # thousands of calls on one explainer (exact and float)
+                make_long(cfg, rnd, 4200 if i == 41 else rnd.choice([1100, 2100, 9000 if run.tier == "thorough" else 1300]))
+                run.count("long-stream-configs")
+            if i in (50, 51, 53, 56) or (run.tier == "thorough" and i % 300 == 50):      # model that becomes informative after ~40 observations
+                make_phase(cfg, rnd, dyn=(i == 51))
+                run.count("late-informative-model-configs")
         seed = rnd.randrange(2 ** 31)
         try:
             sc = (RealScenario if cfg.get("real") else Scenario)(cfg, seed)
